@@ -424,6 +424,8 @@ def eq0(d):
     # canonical sign: first coefficient positive
     if d.terms[0][1] < 0:
         d = neg(d)
+        if isinstance(d, int):
+            return d == 0
     return B('eq0', (d,), ('eq0', d.uid))
 
 
